@@ -1,6 +1,8 @@
 package props
 
 import (
+	"crypto/rand"
+	"errors"
 	"fmt"
 	"sort"
 	"strings"
@@ -310,17 +312,103 @@ func handshakeOnlyFlight(cfg *tls.Config, id tls.ClientHelloID) (stream []byte, 
 	return ce.AllWritten(), err, panicMsg
 }
 
+type failingReader struct{}
+
+func (failingReader) Read([]byte) (int, error) { return 0, errors.New("verif: no entropy") }
+
+// c03ShuffleWithoutEntropy: the Chrome shuffle draws from crypto/rand and falls back to another source when
+// that fails. Whatever the source, the entries the spec pins — GREASE first and (second) last, padding and
+// pre_shared_key behind it — stay where they are. crypto/rand.Reader fails while the hello is built
+// (Config.Rand still serves the connection's own material).
+func c03ShuffleWithoutEntropy() *explore.Scenario {
+	var ids []NamedID
+	for _, n := range ParrotIDs() {
+		if sp, err := tls.UTLSIdToSpec(n.ID); err == nil && len(sp.Extensions) > 2 {
+			if _, ok := sp.Extensions[0].(*tls.UtlsGREASEExtension); ok {
+				ids = append(ids, n)
+			}
+		}
+	}
+	return &explore.Scenario{
+		Name:    "shuffling-parrots-while-crypto-rand-fails",
+		Workers: 1, // crypto/rand.Reader is process-global
+		Run: func(x *explore.X) (r explore.Result) {
+			if len(ids) == 0 {
+				r.Violate("INFRA|c03-no-grease-first-parrot", "no parrot starts with a GREASE extension")
+				return
+			}
+			n := ids[x.Choose("id", len(ids))]
+			conn := x.Choose("connection", 6)
+			cfg := peer.ClientConfig("example.com")
+			cfg.OmitEmptyPsk = true
+			cfg.Rand = newScriptRand(fmt.Sprintf("c03-noent-%d", conn))
+			// (only the spec is generated without entropy: Go's crypto/rand.Read ends the process when its
+			// Reader fails, which the GREASE-ECH extension would run into while the hello is built)
+			saved := rand.Reader
+			rand.Reader = failingReader{}
+			var spec tls.ClientHelloSpec
+			var serr error
+			pm0 := catch(func() { spec, serr = tls.UTLSIdToSpec(n.ID) })
+			rand.Reader = saved
+			if pm0 != "" || serr != nil {
+				r.Obs = "no-spec-without-entropy"
+				r.Count("refused_without_entropy", 1)
+				return
+			}
+			stream, _, perr, pm := firstFlight(cfg, tls.HelloCustom, func(u *tls.UConn) error { return u.ApplyPreset(&spec) })
+			what := fmt.Sprintf("%s conn=%d, crypto/rand failing while the spec is generated", n.Name, conn)
+			if pm != "" {
+				r.Violate("C03|panic|no-entropy", "%s: %s", what, pm)
+				return
+			}
+			msg, _, err := wire.FirstFlightHello(stream)
+			if err != nil {
+				r.Obs = "no-hello:" + errClass(perr) // refusing to build without entropy is an answer too
+				r.Count("refused_without_entropy", 1)
+				return
+			}
+			h, err := wire.ParseClientHello(msg)
+			if err != nil {
+				r.Obs = "unparsable"
+				return
+			}
+			r.Nontrivial = true
+			r.Class = what
+			isGrease := func(t uint16) bool { return t&0x0f0f == 0x0a0a && t>>8 == t&0xff }
+			var greaseAt []int
+			for i, e := range h.Exts {
+				if isGrease(e.Type) {
+					greaseAt = append(greaseAt, i)
+				}
+			}
+			if len(greaseAt) == 0 || greaseAt[0] != 0 {
+				r.Violate("C03|fixed-position|first-grease", "%s: the hello does not start with the GREASE extension (extension types %s)", what, extTypes(h))
+			}
+			if len(greaseAt) >= 2 {
+				for _, e := range h.Exts[greaseAt[len(greaseAt)-1]+1:] {
+					if e.Type != 21 && e.Type != 41 {
+						r.Violate("C03|fixed-position|last-grease", "%s: extension %d follows the last GREASE extension (only padding and pre_shared_key may): %s", what, e.Type, extTypes(h))
+						break
+					}
+				}
+			}
+			r.Obs = fmt.Sprintf("grease=%v|viol=%d", greaseAt, len(r.Viol))
+			return
+		},
+	}
+}
+
 func c03Scenarios(thorough bool) []*explore.Scenario {
 	if thorough {
-		return []*explore.Scenario{c03Scenario(200)}
+		return []*explore.Scenario{c03Scenario(200), c03ShuffleWithoutEntropy()}
 	}
-	return []*explore.Scenario{c03Scenario(12)}
+	return []*explore.Scenario{c03Scenario(12), c03ShuffleWithoutEntropy()}
 }
 
 func init() {
 	register(&Prop{ID: "C03", Level: "exploration", Variant: "A", Scenarios: c03Scenarios,
 		Run: func(c *explore.Check, thorough bool) {
-			c.Rule = "every predefined parrot x 7 server-name lengths (1, 11, 200, 250..253) x 12 (200) connections with per-connection scripted entropy x 3 ways of reaching the first flight {BuildHandshakeState then Handshake, Handshake alone, BuildHandshakeStateWithoutSession then BuildHandshakeState then Handshake} x version bounds left in the application Config {none, 1.0-1.1, 1.0-1.0, max 1.1, min 1.3}: legacy_version, cipher suites, compression and every extension (sequence for non-shuffling parrots; multiset plus fixed positions of GREASE/padding/pre_shared_key for shuffling ones) compared with an independent reference encoding (refNorm, written from the RFCs) of a second UTLSIdToSpec call, per-connection material masked. distinct = (id, sni length, observed extension order)"
+			c.Rule = "every predefined parrot x 7 server-name lengths (1, 11, 200, 250..253) x 12 (200) connections with per-connection scripted entropy x 3 ways of reaching the first flight {BuildHandshakeState then Handshake, Handshake alone, BuildHandshakeStateWithoutSession then BuildHandshakeState then Handshake} x version bounds left in the application Config {none, 1.0-1.1, 1.0-1.0, max 1.1, min 1.3} (+ every parrot starting with GREASE, its spec generated while crypto/rand fails: GREASE stays first and last-but-padding/PSK): legacy_version, cipher suites, compression and every extension (sequence for non-shuffling parrots; multiset plus fixed positions of GREASE/padding/pre_shared_key for shuffling ones) compared with an independent reference encoding (refNorm, written from the RFCs) of a second UTLSIdToSpec call, per-connection material masked. distinct = (id, sni length, observed extension order)"
 			c.Assumptions = []string{"the Chrome shuffle is driven by its own crypto/rand seed: permutations are observed over the enumerated connections, not enumerated decision by decision", "padding presence is taken from the wire (its policy is C05's subject)"}
 			runAll(c, c03Scenarios(thorough), 0)
 			c.Gate(c.Total.Counters["shuffler_hellos"] > 20, "non-vacuity: %d shuffler hellos", c.Total.Counters["shuffler_hellos"])
